@@ -50,6 +50,7 @@ class ModelParseInterp(Interp):
         super().__init__(mod, rule)
         self.repo = repo
         self.max_depth = 12
+        self.concrete_asserts = True
         self.oracles['parse_expression'] = self._pe
 
     def _pe(self, args, node):
@@ -71,6 +72,7 @@ class LintInterp(Interp):
         super().__init__(mod, rule)
         self.repo = repo
         self.max_depth = 60
+        self.concrete_asserts = True
         self.set_order = 'asc'
 
     def lint(self, func, model, order='asc'):
